@@ -2,7 +2,7 @@
     sniproxy/tls_hello_conn.go (Gen/HelloConsts.v).  Each is decided by
     computation; when the source changes, the [Lemma] stops checking. *)
 From Coq Require Import List NArith Bool String Lia.
-From Verif Require Import Lib.Bytes Sni.Wire Sni.Hello Sni.Handover Gen.HelloConsts.
+From Verif Require Import Lib.Bytes Sni.Wire Sni.Hello Sni.Handover Sni.HelloResult Gen.HelloConsts.
 Import ListNotations.
 Local Open Scope N_scope.
 
@@ -28,6 +28,14 @@ Proof. split; reflexivity. Qed.
     is empty. *)
 Lemma gen_read_handover_transparent : handover_transparentb gen_read_handover = true.
 Proof. vm_compute. reflexivity. Qed.
+
+(** The *TLSHelloInfo that HelloInfo returns is a cell made by that call: not
+    a part of a pooled object, not a package-level variable. *)
+Lemma gen_hello_result_fresh : origin_freshb gen_hello_result_origin = true.
+Proof. vm_compute. reflexivity. Qed.
+
+Lemma gen_hello_result_origin_eq : gen_hello_result_origin = OFresh.
+Proof. reflexivity. Qed.
 
 Local Open Scope string_scope.
 
